@@ -57,11 +57,11 @@ Proof.
   - change (script (x :: y :: items) final) with (si_block x ++ semi :: script (y :: items) final). rewrite app_length. specialize (IH final Hall). simpl in *. lia.
 Qed.
 
-Theorem text_script d items final :
-  (forall s, dialect_prepass d s = s) -> Forall (text_ok d) items ->
-  parse_text false "statements" d (script_text (map ti_text items) final) = Ok (canon (VList (map ti_val items))).
+(* on the text that the lexer is given (after the dialect's text pre-pass) *)
+Theorem text_script_tokens d items final : Forall (text_ok d) items ->
+  (let* ts := lex false 7 (script_text (map ti_text items) final) in parse_tokens "statements" d ts) = Ok (canon (VList (map ti_val items))).
 Proof.
-  intros Hpre Hall. unfold parse_text. rewrite Hpre. rewrite (lex_script d items final Hall). cbv beta iota.
+  intros Hall. rewrite (lex_script d items final Hall). cbv beta iota.
   unfold parse_tokens. change (String.eqb "statements" "statements") with true. cbv beta iota.
   set (ts := script (map to_sitem items) final).
   assert (Hst : Forall (standalone (fuel_for ts) d) (map to_sitem items)).
@@ -74,3 +74,8 @@ Proof.
   pose proof (script_of_standalone (fuel_for ts) d (map to_sitem items) final (Datatypes.S (List.length ts)) [] Hst Hlen) as Hs. fold ts in Hs. rewrite Hs.
   cbn [rev app]. rewrite map_map. reflexivity.
 Qed.
+
+Theorem text_script d items final :
+  (forall s, dialect_prepass d s = s) -> Forall (text_ok d) items ->
+  parse_text false "statements" d (script_text (map ti_text items) final) = Ok (canon (VList (map ti_val items))).
+Proof. intros Hpre Hall. unfold parse_text. rewrite Hpre. apply text_script_tokens. exact Hall. Qed.
